@@ -33,7 +33,7 @@ ASSUMPTIONS = [
     'symbolic runs use an integer-time subclass of task.Clock/DelayedCall (same code, int 0 instead of float 0.0); native replays use the stock task.Clock',
 ]
 BOUNDS = {
-    'quick': {'names': 2, 'steps': '2 (all kinds) and 3 (timed line, any line, clock advance); 3 through a real TorState (0-2 mappings listed at bootstrap, then events, then a clock advance)', 'expiry_offset_s': [-10, MAX_OFF], 'advance_s': [0, MAX_ADV], 'line_forms': 5},
+    'quick': {'names': 2, 'steps': '2 (all kinds) and 3 (timed line, any line, clock advance; any line, clock advance, any line); 3 through a real TorState (0-2 mappings listed at bootstrap, then events, then a clock advance)', 'expiry_offset_s': [-10, MAX_OFF], 'advance_s': [0, MAX_ADV], 'line_forms': 5},
     'thorough': {'names': 2, 'steps': 3, 'expiry_offset_s': [-10, MAX_OFF], 'advance_s': [0, MAX_ADV], 'line_forms': 5},
 }
 OUTSIDE = ['non-UTC local time', 'sub-second expiries', 'more than 3 steps / 2 names', 'expiry offsets beyond 3 days']
@@ -259,7 +259,8 @@ def c20_history2(k1: int, k2: int, n1: int, n2: int, v1: int, v2: int) -> str:
     return _history(2, [k1, k2], [n1, n2], [v1, v2])
 
 
-_K3Q = [{'k1': a, 'k2': b, 'k3': 0} for a in (1, 2) for b in range(1, 6)]
+_K3Q = [{'k1': a, 'k2': b, 'k3': 0} for a in (1, 2) for b in range(1, 6)] + \
+       [{'k1': a, 'k2': 0, 'k3': c} for a in (1, 3, 4, 5) for c in (1, 2, 3)]      # a line, time passes, another line
 
 
 @cond(quick=dict(parts=_K3Q, budget=60), thorough=dict(parts=_K3, budget=240))
